@@ -310,7 +310,27 @@ def p_slice(w, p, raw, allow=True):
         E.assume(ints_in_range(raw, p.node.shape))  # out-of-range integers raise (C12's subject)
     coll = w.fn(NC, "new_collection")(p.node)
     out = coll[raw]
-    return Prog(out.expr, p.ref[raw], p.dsk)
+    ref = p.ref[raw]
+    lem = getattr(p.ref, "lemmas", None)
+    if lem is not None and isinstance(ref, SArr):
+        # the sliced reference reads the unsliced one at start + step * i: its lemmas are the unsliced ones at those positions
+        src_shape = p.ref.shape
+        entries = [r for r in raw if r is not None] + [slice(None)] * (len(src_shape) - len([r for r in raw if r is not None]))
+
+        def sliced_lemmas(idx, entries=entries, src_shape=src_shape, lem=lem):
+            pos, k = [], 0
+            for r, n in zip(entries, src_shape):
+                if hasattr(r, "start"):
+                    start, _stop, step = core.slice_indices(r.start, r.stop, r.step, n)
+                    pos.append(core._z(start) + core._z(step) * idx[k])
+                    k += 1
+                else:
+                    pos.append(z3.If(core._z(r) < 0, core._z(r) + core._z(n), core._z(r)))
+            return lem(pos)
+
+        if not any(r is None for r in raw):
+            ref.lemmas = sliced_lemmas
+    return Prog(out.expr, ref, p.dsk)
 
 
 def p_rechunk(w, p, chunks):
@@ -324,6 +344,14 @@ def scaled(x, factor=1.0):
 
 
 scaled = user_kernel(scaled)
+
+
+def _carry_lemmas(ref, operands):
+    """operands of the same shape share the result's index space: their prefix-function lemmas apply to it as they are"""
+    carried = [r.lemmas for r in operands if isinstance(r, SArr) and getattr(r, "lemmas", None) is not None
+               and isinstance(ref, SArr) and tuple(map(str, r.shape)) == tuple(map(str, ref.shape))]
+    if carried and getattr(ref, "lemmas", None) is None:
+        ref.lemmas = lambda idx: [f for lem in carried for f in lem(idx)]
 
 
 def p_elemwise(w, op, *ps, _dtype=None, _where=None, _out=None, **user_kwargs):
@@ -347,6 +375,7 @@ def p_elemwise(w, op, *ps, _dtype=None, _where=None, _out=None, **user_kwargs):
     node = w.space.make(M.Elemwise, op, _dtype, None, True, None, dict(user_kwargs) or None, *[q.node if isinstance(q, Prog) else q for q in ps])
     refs = [q.ref if isinstance(q, Prog) else q for q in ps]
     ref = getattr(op, "__wrapped__", op)(*refs, **user_kwargs)  # (the reference is not a call the library makes)
+    _carry_lemmas(ref, refs)
     dsk = {}
     for q in ps:
         if isinstance(q, Prog):
@@ -572,9 +601,7 @@ def p_map2(w, a, b, op=np.add):
     dsk = dict(a.dsk)
     dsk.update(b.dsk)
     ref = op(a.ref, b.ref)
-    carried = [r.lemmas for r in (a.ref, b.ref) if getattr(r, "lemmas", None) is not None and tuple(r.shape) == tuple(ref.shape)]
-    if carried:
-        ref.lemmas = lambda idx: [f for lem in carried for f in lem(idx)]  # same index space as the operands
+    _carry_lemmas(ref, (a.ref, b.ref))
     return Prog(out.expr, ref, dsk)
 
 
@@ -701,6 +728,7 @@ _first_rows = user_kernel(_first_rows)
 
 
 MAP_BLOCKS_DRIFT_SITE = "map_blocks:shape-dependent-function-above-regridded-input"
+MAP_BLOCKS_PAIRING_SITE = "map_blocks:two-inputs-above-regridded-input"
 
 
 def p_map_first(w, E, p, site=None):
@@ -728,7 +756,9 @@ def _map2_over_sliding(w, E):
     x = source(w, E, "x", (4,), chunks=[(1, 1, 1, 1)])
     r = p_sliding_sum(w, E, x, 0)
     y = source(w, E, "y", (len(r.node.chunks[0]),), chunks=[tuple(r.node.chunks[0])])
-    return p_map2(w, r, y)
+    out = p_map2(w, r, y)
+    out.site = MAP_BLOCKS_PAIRING_SITE
+    return out
 
 
 def p_eye(w, E, N, chunks, M):
@@ -807,7 +837,8 @@ def ints_in_range(raw, shape):
 
 
 # programs that demonstrate a recorded finding are run only by the properties the finding is recorded under
-ONLY_FOR = {"map_blocks(first,((x[1,1,4]+y[1,4,1])[::-1])*2)": ("C01", "C02")}
+ONLY_FOR = {"map_blocks(first,((x[1,1,4]+y[1,4,1])[::-1])*2)": ("C01", "C02"),
+            "map_blocks(np.add,sliding_window_view(x[1,1,1,1],W).sum(-1),y)": ("C01", "C02")}
 
 
 # program descriptions: name -> builder(w, E) -> Prog
